@@ -406,7 +406,9 @@ _reg("C01", plan_c01, "model_checking",
      "The wire grammar's own round-trip lemmas are model-checked over a bounded-exhaustive packet domain of both families "
      "(MC_Wire); every packet of that domain (spec-generated) and seeded rich packets (boundary lengths, long user-property "
      "lists, every code) are pushed through the real encoder and the three real decoders, and each recorded observation is "
-     "validated: encoding succeeds, all three decoders return the packet, poll total and raw body are exact.",
+     "validated: encoding succeeds, all three decoders return the packet, poll total and raw body are exact. Also a PUBLISH "
+     "of EVERY remaining length 4..2300 (every 61st to 70 000), threshold payload sizes x DUP / RETAIN / QoS / properties, and "
+     "the bytes the ASYNC encoder hands to a socket-like sink (vectored, short first write) must decode to the packet too.",
      "TLA+ grammar + TLC bounded-exhaustive domain + spec-generated vectors replayed + trace validation")
 _reg("C02", plan_c02, "model_checking",
      "Length lemmas of the grammar model-checked (MC_Wire: Lengths) and proved for the header arithmetic (Apalache); on the "
@@ -415,8 +417,10 @@ _reg("C02", plan_c02, "model_checking",
      "268,435,455.", "TLA+ grammar + TLC + Apalache + trace validation in both build profiles")
 _reg("C09", plan_c09, "model_checking",
      "Every packet of the bounded domain and seeded rich packets: blocking encoder = repeated = cloned = async encoder under "
-     "five sink scripts (all-at-once, 1 byte, 3 bytes, Pending before every 1-byte write, random) and packet = fixed header + "
-     "streamed body (whole and 1-byte sinks); validated by TLC against the equations of C09.",
+     "thirteen sink scripts (all-at-once, 1 byte, 3 bytes, Pending before every 1-byte write, half + Pending, random, and "
+     "sinks that take VECTORED writes: all, 7 bytes first, half, around Pendings) and packet = fixed header + streamed body "
+     "(whole and 1-byte sinks); two encodings in flight on one thread (Interleave); a PUBLISH of every remaining length "
+     "4..2300; validated by TLC against the equations of C09.",
      "TLA+ spec + spec-generated vectors + trace validation of scripted-sink runs")
 _reg("C10", plan_c10, "model_checking",
      "The emitted bytes of every packet of the bounded domain, of every wire-numbered enum variant and of seeded rich packets "
@@ -426,7 +430,8 @@ _reg("C10", plan_c10, "model_checking",
 _reg("C07", plan_c07, "model_checking",
      "Prefix-incompleteness and trailing-byte lemmas model-checked on the grammar (MC_Wire) and EOF-at-every-position on the "
      "poll decoder model (MC_Poll); on the real code every cut of every packet of the bounded domain and of seeded rich packets "
-     "through blocking / async / poll decoders, plus random suffixes.",
+     "through blocking / async / poll decoders, plus random suffixes; every cut of every legal FOREIGN spelling of sampled "
+     "packets (short forms spelled out, padded remaining / property lengths, another property order).",
      "TLA+ spec + TLC + spec-generated vectors (every cut) + trace validation")
 _reg("C06", plan_c06, "model_checking",
      "Poll-decoder model checked to agree with the lenient grammar on its stream set (MC_Poll: LenientAgrees); the C06 relation "
